@@ -29,6 +29,21 @@ class C06(InterpProp):
 
     def check_exec(self, info, res):
         r, gh, sc = info['r'], info['ghost'], info['sc']
+        if gh.clean and gh.initialized and not gh.final and r['outcome'] == 'error' and \
+                r['err']['class'] in ('NonDeterminismError', 'ConflictingTransitionsError'):
+            # entering a history state is entering its parent's region: a transition that targets one does not
+            # conflict with what fires in a sibling region, and restoring is not refused
+            trans = info['trans']
+            gt = oracles.guard_table(r.get('eff', []))
+            pending = gh.next(info['clock'])
+            pend_name = pending['ev']['ev'] if pending else None
+            exps = [sorted(oracles.fires_spec(sc, trans, set(info['cfg0']), pend_name,
+                                              lambda i, x, d=d: gt.get((i, x), d) is True if (i, x) in gt else d))
+                    for d in (False, True)]
+            if exps[0] == exps[1] and oracles.classify(sc, [trans[i] for i in exps[0]]) == 'ok' and \
+                    any(trans[i].target is not None and oracles.is_hist(sc.state_for(trans[i].target)) for i in exps[0]):
+                res.violations.append('step %d: %s raised instead of restoring: the documented selection %s (one of them enters a '
+                                      'history state) can fire together' % (info['k'], r['err']['class'], exps[0]))
         if not gh.clean or r['outcome'] != 'step':
             return
         k = info['k']
